@@ -637,11 +637,14 @@ func (self *Node) removeMetadata() {
 }
 
 func (self *Node) getFork(index string) *Fork {
-	i, err := strconv.Atoi(index)
-	if err == nil && i >= 0 && i < len(self.forks) {
-		return self.forks[i]
-	}
 	l := len(self.call.GetFqid()) + 5
+	// Usually fork N is at position N, but forks which are expanded at
+	// run time are appended in the order in which they are found.
+	if i, err := strconv.Atoi(index); err == nil && i >= 0 && i < len(self.forks) {
+		if f := self.forks[i]; len(f.fqname) > l && f.fqname[l:] == index {
+			return f
+		}
+	}
 	for _, f := range self.forks {
 		if len(f.fqname) > l && f.fqname[l:] == index {
 			return f
